@@ -163,6 +163,25 @@ def keys_term(ks):
     return "[" + "; ".join(key_term(k) for k in ks) + "]"
 
 
+def iter_terms(st, case):
+    """rchk_iter terms: the model's iter_arrays on the OBSERVED files vs what the live handle yielded"""
+    out = []
+    nt, bo = dt_info(case['dtype'])
+    v = st['live']
+    if 'error' in v:
+        return out
+    for (a, b, c), it in zip(st['iters'], v['iters']):
+        if it[0] == 'ok':
+            flat = [0, len(it[1])]
+            for hexdata, shape in it[1]:
+                bs = hexl(hexdata)
+                flat += [len(bs)] + bs
+        else:
+            flat = [EXC_CODE.get(it[1], 7)]
+        out.append(f"rchk_iter {rdir_term(st)} {cz(a)} {copt(b)} {cz(c)} {czl_rle(flat)}")
+    return out
+
+
 def rhistory_term(case, steps, fn='rchk_history'):
     ops = "[" + "; ".join(f"({rop_term(op, st)}, {keys_term(st['ks'])})"
                           for op, st in zip(case['ops'], steps[1:])) + "]"
@@ -205,7 +224,15 @@ def check_c04(st, case):
                 if r[0] != 'exc' or r[1] != 'TypeError':
                     return f'{nm}: ra[{k!r}] should raise TypeError, got {r[:2]}'
         for (a, b, c), it in zip(st['iters'], v['iters']):
+            if c == 0:
+                if it[0] != 'exc' or it[1] != 'ValueError':
+                    return f'{nm}: iter_arrays step 0 should raise ValueError, got {it[:2]}'
+                continue
             idxs = list(range(a, n if b is None else b, c))
+            bad = [i for i in idxs if not (-n <= i < n)]
+            if bad:
+                # the generator yields the items before the first bad index, then raises
+                pass
             if any(not (-n <= i < n) for i in idxs):
                 if it[0] != 'exc' or it[1] != 'IndexError':
                     return f'{nm}: iter_arrays({a},{b},{c}) should raise IndexError'
